@@ -1,0 +1,444 @@
+//go:build verif
+
+package statedb
+
+// Contracts for the deductive checker in /verif (comment-only; compiled only with -tags verif).
+// Second part of the StateDB contracts (agent V): object creation, balance mutators at StateDB level, readers,
+// access-list mutators, constructor.  Uses the aliases / specfuncs of zz_contracts_c05_verif.go (tag c05).
+// Property C05 "a reverted call frame leaves no trace": every mutator appends exactly the journal entries whose
+// Revert (proved in the c05 part) restores what it overwrote.
+// Property C02 "EVM execution never mints or burns": the cached balance moves by exactly the transferred amount,
+// re-creating an account keeps its balance.
+
+/*@
+// ---- constructor of a cached object, strengthened: a nil balance becomes a private zero, the caches start empty
+extend func newObject
+    requires allocated: account.Balance != nil ==> account.Balance < $alloc
+    ensures allocated: result.account.Balance < $alloc
+    ensures zero: account.Balance == nil ==> fresh(result.account.Balance) && *result.account.Balance == 0
+    ensures nocode: len(result.code) == 0
+    ensures nostorage: forall k Hash32 :: !has(result.dirtyStorage, k) && !has(result.originStorage, k) && !has(result.transientStorage, k)
+
+// ---- the keeper's account view is a function of the store: whether an account exists at an address is abstract world state
+// (evm_exists), so two lookups without a write in between agree (the c05 part leaves GetAccount unconstrained)
+sort AcctExists = (Array Addr20 Bool)
+world evm_exists AcctExists
+extend func (Keeper).GetAccount
+    ensures exists: (result != nil) == evm_exists[addr]
+    // heap well-formedness (true of every Go heap): a pointer handed out by a callee refers to an allocated object
+    ensures allocated: result != nil && result.Balance != nil ==> result.Balance < $alloc
+extend func (Keeper).SetAccount
+    modifies evm_exists
+extend func (Keeper).DeleteAccount
+    modifies evm_exists
+extend func (*StateDB).getStateObject
+    ensures keeper_view: old(s.stateObjects)[addr] == nil ==> (result != nil) == evm_exists[addr]
+    ensures allocated: old(s.stateObjects)[addr] == nil && result != nil ==> result.account.Balance < $alloc
+
+// =====================================================================================================================
+// stateObject level: AddBalance / SubBalance = SetBalance(old +/- amount), skipped for a zero amount
+
+func (*stateObject).AddBalance
+    let j = s.db.journal
+    let n = old(len(s.db.journal.entries))
+    let e = cast(s.db.journal.entries[n], EBalance)
+    requires nonnil: s != nil && s.db != nil && s.db.journal != nil && amount != nil && s.account.Balance != nil
+    requires allocated: s.account.Balance < $alloc
+    modifies *s, *s.db.journal
+    ensures zero: old(*amount) == 0 ==> *s == old(*s) && *j == old(*j)
+    ensures appended: old(*amount) != 0 ==> len(j.entries) == n + 1 && (forall k int :: 0 <= k && k < n ==> j.entries[k] == old(j.entries)[k])
+    ensures entry: old(*amount) != 0 ==> typeis(j.entries[n], EBalance) && e.account != nil && *e.account == s.address
+    ensures prev: old(*amount) != 0 ==> e.prev != nil && fresh(e.prev) && *e.prev == old(*s.account.Balance)
+    ensures dirty: old(*amount) != 0 ==> j.dirties == mapput(old(j.dirties), s.address, old(j.dirties)[s.address] + 1)
+    ensures c02_exact: s.account.Balance != nil && *s.account.Balance == old(*s.account.Balance) + old(*amount)
+    ensures set: old(*amount) != 0 ==> fresh(s.account.Balance) && so_but_balance(*s, old(*s))
+    // the operands are not written: neither the amount nor the previous balance object (entries / other objects may share it)
+    ensures operands: *amount == old(*amount) && *old(s.account.Balance) == old(*s.account.Balance)
+
+func (*stateObject).SubBalance
+    let j = s.db.journal
+    let n = old(len(s.db.journal.entries))
+    let e = cast(s.db.journal.entries[n], EBalance)
+    requires nonnil: s != nil && s.db != nil && s.db.journal != nil && amount != nil && s.account.Balance != nil
+    requires allocated: s.account.Balance < $alloc
+    modifies *s, *s.db.journal
+    ensures zero: old(*amount) == 0 ==> *s == old(*s) && *j == old(*j)
+    ensures appended: old(*amount) != 0 ==> len(j.entries) == n + 1 && (forall k int :: 0 <= k && k < n ==> j.entries[k] == old(j.entries)[k])
+    ensures entry: old(*amount) != 0 ==> typeis(j.entries[n], EBalance) && e.account != nil && *e.account == s.address
+    ensures prev: old(*amount) != 0 ==> e.prev != nil && fresh(e.prev) && *e.prev == old(*s.account.Balance)
+    ensures dirty: old(*amount) != 0 ==> j.dirties == mapput(old(j.dirties), s.address, old(j.dirties)[s.address] + 1)
+    ensures c02_exact: s.account.Balance != nil && *s.account.Balance == old(*s.account.Balance) - old(*amount)
+    ensures set: old(*amount) != 0 ==> fresh(s.account.Balance) && so_but_balance(*s, old(*s))
+    ensures operands: *amount == old(*amount) && *old(s.account.Balance) == old(*s.account.Balance)
+
+// =====================================================================================================================
+// createObject: exactly one journal entry - createObjectChange{addr} when no object existed (cache and keeper),
+// resetObjectChange{prev} carrying the previous object otherwise - and a blank new object installed for addr.
+// Composition with the proved Revert contracts: createObjectChange.Revert deletes the key addr again,
+// resetObjectChange.Revert puts prev back under prev.address == addr (prev_ident), prev itself is untouched (prev_kept).
+func (*StateDB).createObject
+    let j = s.journal
+    let n = old(len(s.journal.entries))
+    let was = old(s.stateObjects)[addr]
+    requires nonnil: s != nil && s.keeper != nil && s.journal != nil
+    // cache invariant: an object is filed under its own address (established by setStateObject, the only writer)
+    requires ident: s.stateObjects[addr] != nil ==> s.stateObjects[addr].address == addr
+    // heap well-formedness: a stored pointer refers to an already allocated object (true of every Go heap)
+    requires allocated: s.stateObjects[addr] != nil ==> s.stateObjects[addr] < $alloc
+    modifies *s, *s.journal
+    ensures appended: len(j.entries) == n + 1 && (forall k int :: 0 <= k && k < n ==> j.entries[k] == old(j.entries)[k])
+    ensures created: prev == nil ==> typeis(j.entries[n], ECreate) && cast(j.entries[n], ECreate).account != nil && *cast(j.entries[n], ECreate).account == addr
+    ensures created_dirty: prev == nil ==> j.dirties == mapput(old(j.dirties), addr, old(j.dirties)[addr] + 1)
+    ensures reset: prev != nil ==> typeis(j.entries[n], EReset) && cast(j.entries[n], EReset).prev == prev && j.dirties == old(j.dirties)
+    ensures prev_cached: was != nil ==> prev == was
+    ensures prev_absent: prev == nil ==> was == nil
+    ensures prev_keeper: was == nil ==> (prev != nil) == evm_exists[addr]
+    ensures prev_loaded: was == nil && prev != nil ==> fresh(prev) && !prev.suicided && prev.account.Balance != nil && prev.db == s
+    ensures prev_ident: prev != nil ==> prev.address == addr
+    ensures prev_kept: was != nil ==> *was == old(*was)
+    ensures installed: newobj != nil && fresh(newobj) && newobj != prev && s.stateObjects == mapput(old(s.stateObjects), addr, newobj) && s.stateObjects[addr] == newobj && sdb_but_objects(*s, old(*s))
+    ensures blank: newobj.address == addr && newobj.db == s && !newobj.suicided && !newobj.dirtyCode && newobj.account.Nonce == 0 && len(newobj.code) == 0
+            && newobj.account.Balance != nil && fresh(newobj.account.Balance) && *newobj.account.Balance == 0
+            && (forall k Hash32 :: !has(newobj.dirtyStorage, k) && !has(newobj.originStorage, k) && !has(newobj.transientStorage, k))
+
+// getOrNewStateObject: the existing object (cached, or loaded from the keeper without a journal entry), else a blank
+// one created through createObject (one createObjectChange entry)
+func (*StateDB).getOrNewStateObject
+    let j = s.journal
+    let n = old(len(s.journal.entries))
+    let was = old(s.stateObjects)[addr]
+    requires nonnil: s != nil && s.keeper != nil && s.journal != nil
+    requires ident: s.stateObjects[addr] != nil ==> s.stateObjects[addr].address == addr
+    requires balance: s.stateObjects[addr] != nil ==> s.stateObjects[addr].account.Balance != nil
+    requires allocated: s.stateObjects[addr] != nil ==> s.stateObjects[addr] < $alloc && s.stateObjects[addr].account.Balance < $alloc
+    modifies *s, *s.journal
+    ensures allocated: result.account.Balance < $alloc
+    ensures found: result != nil && s.stateObjects[addr] == result && result.address == addr && result.account.Balance != nil
+    ensures cached: was != nil ==> result == was && *s == old(*s) && *j == old(*j) && *was == old(*was)
+    ensures fresh_obj: was == nil ==> fresh(result) && result.db == s && !result.suicided && s.stateObjects == mapput(old(s.stateObjects), addr, result) && sdb_but_objects(*s, old(*s))
+    // either nothing was journalled (object loaded from the keeper) or exactly one createObjectChange for addr (blank object)
+    ensures journal_same: len(j.entries) == n ==> *j == old(*j)
+    ensures journal_iff: (len(j.entries) == n) == (was != nil || evm_exists[addr])
+    ensures journal_created: len(j.entries) != n ==> was == nil && len(j.entries) == n + 1 && (forall k int :: 0 <= k && k < n ==> j.entries[k] == old(j.entries)[k])
+            && typeis(j.entries[n], ECreate) && cast(j.entries[n], ECreate).account != nil && *cast(j.entries[n], ECreate).account == addr
+            && j.dirties == mapput(old(j.dirties), addr, old(j.dirties)[addr] + 1) && *result.account.Balance == 0 && result.account.Nonce == 0 && fresh(result.account.Balance)
+
+// CreateAccount (EVM CREATE / value transfer to a new address): one journal entry as createObject; the new object is blank
+// EXCEPT that the balance of an existing object is carried over (C02: funds sent to the address before the creation are kept)
+func (*StateDB).CreateAccount
+    let j = s.journal
+    let n = old(len(s.journal.entries))
+    let was = old(s.stateObjects)[addr]
+    let obj = s.stateObjects[addr]
+    let isreset = typeis(j.entries[n], EReset)
+    let prev = cast(j.entries[n], EReset).prev
+    requires nonnil: s != nil && s.keeper != nil && s.journal != nil
+    requires ident: s.stateObjects[addr] != nil ==> s.stateObjects[addr].address == addr
+    requires balance: s.stateObjects[addr] != nil ==> s.stateObjects[addr].account.Balance != nil
+    requires allocated: s.stateObjects[addr] != nil ==> s.stateObjects[addr] < $alloc
+    modifies *s, *s.journal
+    ensures appended: len(j.entries) == n + 1 && (forall k int :: 0 <= k && k < n ==> j.entries[k] == old(j.entries)[k])
+    ensures kind: isreset || typeis(j.entries[n], ECreate)
+    ensures created: !isreset ==> was == nil && !evm_exists[addr] && cast(j.entries[n], ECreate).account != nil && *cast(j.entries[n], ECreate).account == addr
+            && j.dirties == mapput(old(j.dirties), addr, old(j.dirties)[addr] + 1)
+    ensures reset_iff: isreset == (was != nil || evm_exists[addr])
+    ensures reset: isreset ==> prev != nil && prev.address == addr && prev != obj && j.dirties == old(j.dirties) && (was != nil ==> prev == was && *was == old(*was))
+    ensures installed: obj != nil && fresh(obj) && s.stateObjects == mapput(old(s.stateObjects), addr, obj) && sdb_but_objects(*s, old(*s))
+    ensures blank: obj.address == addr && obj.db == s && !obj.suicided && !obj.dirtyCode && obj.account.Nonce == 0 && len(obj.code) == 0
+            && (forall k Hash32 :: !has(obj.dirtyStorage, k) && !has(obj.originStorage, k) && !has(obj.transientStorage, k))
+    // C02: the balance of the previous object is carried over, a fresh address starts at zero
+    ensures c02_carried: isreset ==> obj.account.Balance != nil && *obj.account.Balance == *prev.account.Balance
+    ensures c02_carried_cached: was != nil ==> *obj.account.Balance == old(*was.account.Balance)
+    ensures c02_zero: !isreset ==> obj.account.Balance != nil && *obj.account.Balance == 0
+
+// =====================================================================================================================
+// StateDB level AddBalance / SubBalance (value transfers, gas purchase / refund, precompile mirrors).
+// C02: exactly the cached balance of addr moves, by exactly the amount (nothing for a zero amount); an address without an
+// object gets a blank one first (createObjectChange). C05: the last entry records the balance before the change, so
+// balanceChange.Revert (proved) restores it; a created object is removed again by createObjectChange.Revert.
+func (*StateDB).AddBalance
+    let j = s.journal
+    let n = old(len(s.journal.entries))
+    let m = len(s.journal.entries)
+    let was = old(s.stateObjects)[addr]
+    let obj = s.stateObjects[addr]
+    let isnew = was == nil && !evm_exists[addr]
+    let e = cast(s.journal.entries[m - 1], EBalance)
+    requires nonnil: s != nil && s.keeper != nil && s.journal != nil && amount != nil
+    // Go invariant (a slice length is never negative), not tracked by the engine for slices read from the heap
+    requires golen: len(s.journal.entries) >= 0
+    requires ident: s.stateObjects[addr] != nil ==> s.stateObjects[addr].address == addr && s.stateObjects[addr].db == s
+    requires balance: s.stateObjects[addr] != nil ==> s.stateObjects[addr].account.Balance != nil
+    requires allocated: s.stateObjects[addr] != nil ==> s.stateObjects[addr] < $alloc && s.stateObjects[addr].account.Balance < $alloc
+    modifies *s, *s.journal, *s.stateObjects[addr]
+    ensures object: obj != nil && obj.address == addr && obj.db == s && obj.account.Balance != nil && sdb_but_objects(*s, old(*s))
+    ensures cached: was != nil ==> obj == was && s.stateObjects == old(s.stateObjects) && so_but_balance(*obj, old(*was))
+    ensures loaded: was == nil ==> fresh(obj) && s.stateObjects == mapput(old(s.stateObjects), addr, obj)
+    ensures count: m == n + ite(isnew, 1, 0) + ite(old(*amount) != 0, 1, 0) && (forall k int :: 0 <= k && k < n ==> j.entries[k] == old(j.entries)[k])
+    ensures untouched: m == n ==> *j == old(*j)
+    ensures created: isnew ==> typeis(j.entries[n], ECreate) && cast(j.entries[n], ECreate).account != nil
+    ensures created_addr: isnew ==> *cast(j.entries[n], ECreate).account == addr
+    ensures entry: old(*amount) != 0 ==> typeis(j.entries[m - 1], EBalance) && e.account != nil && *e.account == addr && e.prev != nil && fresh(e.prev)
+    ensures dirty: m != n ==> j.dirties == mapput(old(j.dirties), addr, old(j.dirties)[addr] + (m - n))
+    // C02
+    ensures c02_exact: was != nil ==> *obj.account.Balance == old(*was.account.Balance) + old(*amount)
+    ensures c02_new: isnew ==> *obj.account.Balance == old(*amount)
+    ensures c02_zero: old(*amount) == 0 && was != nil ==> *was == old(*was)
+    // C05: the journalled previous value is the balance before the change (also for an object just loaded from the keeper)
+    ensures c05_prev: old(*amount) != 0 ==> *obj.account.Balance == *e.prev + old(*amount) && (was != nil ==> *e.prev == old(*was.account.Balance)) && (isnew ==> *e.prev == 0)
+    ensures operand: *amount == old(*amount)
+
+func (*StateDB).SubBalance
+    let j = s.journal
+    let n = old(len(s.journal.entries))
+    let m = len(s.journal.entries)
+    let was = old(s.stateObjects)[addr]
+    let obj = s.stateObjects[addr]
+    let isnew = was == nil && !evm_exists[addr]
+    let e = cast(s.journal.entries[m - 1], EBalance)
+    requires nonnil: s != nil && s.keeper != nil && s.journal != nil && amount != nil
+    // Go invariant (a slice length is never negative), not tracked by the engine for slices read from the heap
+    requires golen: len(s.journal.entries) >= 0
+    requires ident: s.stateObjects[addr] != nil ==> s.stateObjects[addr].address == addr && s.stateObjects[addr].db == s
+    requires balance: s.stateObjects[addr] != nil ==> s.stateObjects[addr].account.Balance != nil
+    requires allocated: s.stateObjects[addr] != nil ==> s.stateObjects[addr] < $alloc && s.stateObjects[addr].account.Balance < $alloc
+    modifies *s, *s.journal, *s.stateObjects[addr]
+    ensures object: obj != nil && obj.address == addr && obj.db == s && obj.account.Balance != nil && sdb_but_objects(*s, old(*s))
+    ensures cached: was != nil ==> obj == was && s.stateObjects == old(s.stateObjects) && so_but_balance(*obj, old(*was))
+    ensures loaded: was == nil ==> fresh(obj) && s.stateObjects == mapput(old(s.stateObjects), addr, obj)
+    ensures count: m == n + ite(isnew, 1, 0) + ite(old(*amount) != 0, 1, 0) && (forall k int :: 0 <= k && k < n ==> j.entries[k] == old(j.entries)[k])
+    ensures untouched: m == n ==> *j == old(*j)
+    ensures created: isnew ==> typeis(j.entries[n], ECreate) && cast(j.entries[n], ECreate).account != nil
+    ensures created_addr: isnew ==> *cast(j.entries[n], ECreate).account == addr
+    ensures entry: old(*amount) != 0 ==> typeis(j.entries[m - 1], EBalance) && e.account != nil && *e.account == addr && e.prev != nil && fresh(e.prev)
+    ensures dirty: m != n ==> j.dirties == mapput(old(j.dirties), addr, old(j.dirties)[addr] + (m - n))
+    ensures c02_exact: was != nil ==> *obj.account.Balance == old(*was.account.Balance) - old(*amount)
+    ensures c02_new: isnew ==> *obj.account.Balance == 0 - old(*amount)
+    ensures c02_zero: old(*amount) == 0 && was != nil ==> *was == old(*was)
+    ensures c05_prev: old(*amount) != 0 ==> *obj.account.Balance == *e.prev - old(*amount) && (was != nil ==> *e.prev == old(*was.account.Balance)) && (isnew ==> *e.prev == 0)
+    ensures operand: *amount == old(*amount)
+
+// =====================================================================================================================
+// readers: the cached field, nothing journalled, no cached object written (the only effect is the cache load of an account
+// that exists in the keeper; *s.journal and every pre-existing object are outside `modifies`, i.e. proved unchanged)
+func (*stateObject).empty
+    inline
+
+func (*StateDB).Exist
+    let was = old(s.stateObjects)[addr]
+    requires nonnil: s != nil && s.keeper != nil
+    modifies *s
+    ensures cached: was != nil ==> result && *s == old(*s)
+    ensures keeper: was == nil ==> result == evm_exists[addr]
+    ensures absent: !result ==> *s == old(*s)
+    ensures frame: sdb_but_objects(*s, old(*s)) && (forall a Addr20 :: a != addr ==> s.stateObjects[a] == old(s.stateObjects)[a])
+
+func (*StateDB).Empty
+    let was = old(s.stateObjects)[addr]
+    requires nonnil: s != nil && s.keeper != nil
+    requires balance: s.stateObjects[addr] != nil ==> s.stateObjects[addr].account.Balance != nil
+    modifies *s
+    ensures cached: was != nil ==> *s == old(*s)
+    ensures absent: was == nil && !evm_exists[addr] ==> result && *s == old(*s)
+    // an account with a nonce or a balance is never reported empty (the code-hash comparison is left abstract)
+    ensures funded: was != nil && (was.account.Nonce != 0 || *was.account.Balance != 0) ==> !result
+    ensures frame: sdb_but_objects(*s, old(*s)) && (forall a Addr20 :: a != addr ==> s.stateObjects[a] == old(s.stateObjects)[a])
+
+func (*StateDB).GetBalance
+    let was = old(s.stateObjects)[addr]
+    requires nonnil: s != nil && s.keeper != nil
+    modifies *s
+    ensures cached: was != nil ==> result == was.account.Balance && *s == old(*s)
+    ensures absent: was == nil && !evm_exists[addr] ==> result != nil && *result == 0 && *s == old(*s)
+    ensures loaded: was == nil && evm_exists[addr] ==> s.stateObjects[addr] != nil && result == s.stateObjects[addr].account.Balance && result != nil
+    ensures frame: sdb_but_objects(*s, old(*s)) && (forall a Addr20 :: a != addr ==> s.stateObjects[a] == old(s.stateObjects)[a])
+
+func (*StateDB).GetNonce
+    let was = old(s.stateObjects)[addr]
+    requires nonnil: s != nil && s.keeper != nil
+    modifies *s
+    ensures cached: was != nil ==> result == was.account.Nonce && *s == old(*s)
+    ensures absent: was == nil && !evm_exists[addr] ==> result == 0 && *s == old(*s)
+    ensures loaded: was == nil && evm_exists[addr] ==> s.stateObjects[addr] != nil && result == s.stateObjects[addr].account.Nonce
+    ensures frame: sdb_but_objects(*s, old(*s)) && (forall a Addr20 :: a != addr ==> s.stateObjects[a] == old(s.stateObjects)[a])
+
+func (*StateDB).HasSuicided
+    let was = old(s.stateObjects)[addr]
+    requires nonnil: s != nil && s.keeper != nil
+    modifies *s
+    ensures cached: was != nil ==> result == was.suicided && *s == old(*s)
+    ensures uncached: was == nil ==> !result
+    ensures frame: sdb_but_objects(*s, old(*s)) && (forall a Addr20 :: a != addr ==> s.stateObjects[a] == old(s.stateObjects)[a])
+
+// no-op (preimage recording is disabled): no `modifies`, so the frame obligation proves that nothing is written
+func (*StateDB).AddPreimage
+    ensures true
+
+// =====================================================================================================================
+// access list (EIP-2929 warm set): C05 - every addition is journalled with exactly the entry whose Revert removes it
+// representation invariant: an address with slots indexes an existing slot set
+specfunc al_wf(al AList) bool = forall a Addr20 :: has(al.addresses, a) && al.addresses[a] != 0 - 1 ==> 0 <= al.addresses[a] && al.addresses[a] < len(al.slots)
+
+func (*accessList).AddAddress
+    requires nonnil: al != nil
+    modifies *al
+    ensures result: result == !has(old(al.addresses), address)
+    ensures added: result ==> al.addresses == mapput(old(al.addresses), address, 0 - 1) && al.slots == old(al.slots)
+    ensures present: !result ==> *al == old(*al)
+    ensures wf: old(al_wf(*al)) ==> al_wf(*al)
+
+// AddSlot: the address part is exact; of the slot sets only what the engine's value model of maps follows is stated (an insertion
+// through the local alias `slotmap := al.slots[idx]` into an existing set is not tracked: limits, see REPORT)
+func (*accessList).AddSlot
+    let idx = old(al.addresses)[address]
+    let present = has(old(al.addresses), address)
+    requires nonnil: al != nil
+    requires wf: al_wf(*al)
+    requires golen: len(al.slots) >= 0
+    modifies *al
+    ensures addr: addrChange == !present && (addrChange ==> slotChange)
+    ensures newset: !present || idx == 0 - 1 ==> slotChange && al.addresses == mapput(old(al.addresses), address, old(len(al.slots))) && len(al.slots) == old(len(al.slots)) + 1
+            && has(al.slots[old(len(al.slots))], slot) && (forall k int :: 0 <= k && k < old(len(al.slots)) ==> al.slots[k] == old(al.slots)[k])
+    ensures oldset: present && idx != 0 - 1 ==> !addrChange && al.addresses == old(al.addresses) && len(al.slots) == old(len(al.slots)) && slotChange == !has(old(al.slots)[idx], slot)
+    ensures wf: al_wf(*al)
+
+func (*StateDB).AddAddressToAccessList
+    let j = s.journal
+    let n = old(len(s.journal.entries))
+    let al = s.accessList
+    requires nonnil: s != nil && s.journal != nil && s.accessList != nil
+    modifies *s.journal, *s.accessList
+    ensures warm: has(al.addresses, addr)
+    ensures present: has(old(al.addresses), addr) ==> *j == old(*j) && *al == old(*al)
+    ensures added: !has(old(al.addresses), addr) ==> len(j.entries) == n + 1 && (forall k int :: 0 <= k && k < n ==> j.entries[k] == old(j.entries)[k])
+            && typeis(j.entries[n], EAlAcc) && cast(j.entries[n], EAlAcc).address != nil && *cast(j.entries[n], EAlAcc).address == addr
+            && j.dirties == old(j.dirties) && al.addresses == mapput(old(al.addresses), addr, 0 - 1) && al.slots == old(al.slots)
+    ensures wf: old(al_wf(*al)) ==> al_wf(*al)
+    ensures monotone: forall a Addr20 :: has(old(al.addresses), a) ==> has(al.addresses, a)
+    ensures frame: *s == old(*s)
+
+// one entry per reported change, account entry first (so that reverting youngest-first removes the slot before the address)
+func (*StateDB).AddSlotToAccessList
+    let j = s.journal
+    let n = old(len(s.journal.entries))
+    let m = len(s.journal.entries)
+    let al = s.accessList
+    let present = has(old(al.addresses), addr)
+    let idx = old(al.addresses)[addr]
+    let newset = !present || idx == 0 - 1
+    let slotnew = newset || !has(old(al.slots)[idx], slot)
+    requires nonnil: s != nil && s.journal != nil && s.accessList != nil
+    requires wf: al_wf(*s.accessList)
+    requires golen: len(s.accessList.slots) >= 0 && len(s.journal.entries) >= 0
+    modifies *s.journal, *s.accessList
+    ensures count: m == n + ite(!present, 1, 0) + ite(slotnew, 1, 0) && (forall k int :: 0 <= k && k < n ==> j.entries[k] == old(j.entries)[k])
+    ensures untouched: m == n ==> *j == old(*j)
+    ensures account_entry: !present ==> typeis(j.entries[n], EAlAcc) && cast(j.entries[n], EAlAcc).address != nil && *cast(j.entries[n], EAlAcc).address == addr
+    ensures slot_entry: slotnew ==> typeis(j.entries[m - 1], EAlSlot) && cast(j.entries[m - 1], EAlSlot).address != nil && *cast(j.entries[m - 1], EAlSlot).address == addr
+            && cast(j.entries[m - 1], EAlSlot).slot != nil && *cast(j.entries[m - 1], EAlSlot).slot == slot
+    ensures clean: j.dirties == old(j.dirties)
+    ensures warm: has(al.addresses, addr) && (newset ==> al.addresses[addr] == old(len(al.slots)) && has(al.slots[al.addresses[addr]], slot))
+    ensures wf: al_wf(*al)
+    ensures addresses: al.addresses == ite(newset, mapput(old(al.addresses), addr, old(len(al.slots))), old(al.addresses)) && len(al.slots) == old(len(al.slots)) + ite(newset, 1, 0)
+    ensures monotone: forall a Addr20 :: has(old(al.addresses), a) ==> has(al.addresses, a)
+    ensures frame: *s == old(*s)
+
+// PrepareAccessList (start of every transaction, Berlin): sender, destination, precompiles and the tx access list become warm;
+// the journal only grows by access-list entries (no account is marked dirty), nothing else of the StateDB changes
+func (*StateDB).PrepareAccessList
+    let j = s.journal
+    let n = old(len(s.journal.entries))
+    let al = s.accessList
+    requires nonnil: s != nil && s.journal != nil && s.accessList != nil
+    requires wf: al_wf(*s.accessList)
+    requires golen: len(s.accessList.slots) >= 0 && len(s.journal.entries) >= 0
+    modifies *s.journal, *s.accessList
+    loop 1,2,3 invariant grown: len(j.entries) >= n && (forall k int :: 0 <= k && k < n ==> j.entries[k] == old(j.entries)[k])
+    loop 1,2,3 invariant kinds: forall k int :: n <= k && k < len(j.entries) ==> typeis(j.entries[k], EAlAcc) || typeis(j.entries[k], EAlSlot)
+    loop 1,2,3 invariant clean: j.dirties == old(j.dirties)
+    loop 1,2,3 invariant wf: al_wf(*al) && len(al.slots) >= 0
+    loop 1,2,3 invariant monotone: forall a Addr20 :: has(old(al.addresses), a) ==> has(al.addresses, a)
+    loop 1,2,3 invariant warm: has(al.addresses, sender) && (dst != nil ==> has(al.addresses, *dst))
+    loop 1 invariant idx: 0 <= #i && #i <= len(precompiles)
+    loop 2 invariant idx: 0 <= #i && #i <= len(list)
+    loop 3 invariant idx: 0 <= #i && #i <= len(el.StorageKeys) && 0 <= #i2 && #i2 < len(list)
+    loop 1 invariant warm_pre: forall i int :: 0 <= i && i < #i ==> has(al.addresses, precompiles[i])
+    loop 2,3 invariant warm_pre: forall i int :: 0 <= i && i < len(precompiles) ==> has(al.addresses, precompiles[i])
+    loop 2 invariant warm_list: forall i int :: 0 <= i && i < #i ==> has(al.addresses, list[i].Address)
+    loop 3 invariant warm_list: forall i int :: 0 <= i && i <= #i2 ==> has(al.addresses, list[i].Address)
+    ensures grown: len(j.entries) >= n && (forall k int :: 0 <= k && k < n ==> j.entries[k] == old(j.entries)[k])
+    ensures kinds: forall k int :: n <= k && k < len(j.entries) ==> typeis(j.entries[k], EAlAcc) || typeis(j.entries[k], EAlSlot)
+    ensures clean: j.dirties == old(j.dirties)
+    ensures warm: has(al.addresses, sender) && (dst != nil ==> has(al.addresses, old(*dst)))
+            && (forall i int :: 0 <= i && i < len(precompiles) ==> has(al.addresses, precompiles[i]))
+            && (forall i int :: 0 <= i && i < len(list) ==> has(al.addresses, list[i].Address))
+    ensures monotone: forall a Addr20 :: has(old(al.addresses), a) ==> has(al.addresses, a)
+    ensures wf: al_wf(*al)
+    ensures frame: *s == old(*s)
+
+// =====================================================================================================================
+// New: an empty cache over the given keeper / context: no objects, an empty journal, nothing warm, no snapshots, no logs
+func newJournal
+    inline
+func newAccessList
+    inline
+func New
+    ensures fresh(result) && result.keeper == keeper && result.ctx == ctx && result.txConfig == txConfig
+    ensures journal: result.journal != nil && fresh(result.journal) && len(result.journal.entries) == 0 && (forall a Addr20 :: !has(result.journal.dirties, a))
+    ensures objects: forall a Addr20 :: !has(result.stateObjects, a) && result.stateObjects[a] == nil
+    ensures accesslist: result.accessList != nil && fresh(result.accessList) && len(result.accessList.slots) == 0 && (forall a Addr20 :: !has(result.accessList.addresses, a)) && al_wf(*result.accessList)
+    ensures rest: len(result.validRevisions) == 0 && result.nextRevisionID == 0 && result.refund == 0 && len(result.logs) == 0
+
+// =====================================================================================================================
+// C05 compositions (zz_compose_c05v_verif.go): mutator, then the Revert of what it journalled = nothing happened.
+// "Nothing" for the cache: the same object under addr with the same contents (the balance POINTER may differ: balanceChange.Revert
+// installs the private copy it recorded - same value), no object where there was none; an account loaded from the keeper on the way
+// stays cached (a read effect, not journalled by design).
+func verifCreateAccountThenRevert
+    let was = old(s.stateObjects)[addr]
+    requires nonnil: s != nil && s.keeper != nil && s.journal != nil && s.accessList != nil
+    requires golen: len(s.journal.entries) >= 0 && len(s.logs) >= 1
+    requires ident: s.stateObjects[addr] != nil ==> s.stateObjects[addr].address == addr
+    requires balance: s.stateObjects[addr] != nil ==> s.stateObjects[addr].account.Balance != nil
+    requires allocated: s.stateObjects[addr] != nil ==> s.stateObjects[addr] < $alloc
+    modifies *s, *s.journal
+    allow frame
+    ensures c05_cached: was != nil ==> s.stateObjects == old(s.stateObjects) && s.stateObjects[addr] == was && *was == old(*was)
+    ensures c05_fresh: was == nil && !evm_exists[addr] ==> !has(s.stateObjects, addr) && (forall a Addr20 :: a != addr ==> s.stateObjects[a] == old(s.stateObjects)[a])
+    ensures c05_rest: sdb_but_objects(*s, old(*s))
+
+func verifAddBalanceThenRevert
+    let was = old(s.stateObjects)[addr]
+    requires nonnil: s != nil && s.keeper != nil && s.journal != nil && s.accessList != nil && amount != nil
+    requires golen: len(s.journal.entries) >= 0 && len(s.logs) >= 1
+    requires ident: s.stateObjects[addr] != nil ==> s.stateObjects[addr].address == addr && s.stateObjects[addr].db == s
+    requires balance: s.stateObjects[addr] != nil ==> s.stateObjects[addr].account.Balance != nil
+    requires allocated: s.stateObjects[addr] != nil ==> s.stateObjects[addr] < $alloc && s.stateObjects[addr].account.Balance < $alloc
+    modifies *s, *s.journal, *s.stateObjects[addr]
+    allow frame
+    ensures c05_cached: was != nil ==> s.stateObjects == old(s.stateObjects) && *was.account.Balance == old(*was.account.Balance) && so_but_balance(*was, old(*was))
+    ensures c05_fresh: was == nil && !evm_exists[addr] ==> !has(s.stateObjects, addr) && (forall a Addr20 :: a != addr ==> s.stateObjects[a] == old(s.stateObjects)[a])
+    ensures c05_rest: sdb_but_objects(*s, old(*s))
+
+func verifSubBalanceThenRevert
+    let was = old(s.stateObjects)[addr]
+    requires nonnil: s != nil && s.keeper != nil && s.journal != nil && s.accessList != nil && amount != nil
+    requires golen: len(s.journal.entries) >= 0 && len(s.logs) >= 1
+    requires ident: s.stateObjects[addr] != nil ==> s.stateObjects[addr].address == addr && s.stateObjects[addr].db == s
+    requires balance: s.stateObjects[addr] != nil ==> s.stateObjects[addr].account.Balance != nil
+    requires allocated: s.stateObjects[addr] != nil ==> s.stateObjects[addr] < $alloc && s.stateObjects[addr].account.Balance < $alloc
+    modifies *s, *s.journal, *s.stateObjects[addr]
+    allow frame
+    ensures c05_cached: was != nil ==> s.stateObjects == old(s.stateObjects) && *was.account.Balance == old(*was.account.Balance) && so_but_balance(*was, old(*was))
+    ensures c05_fresh: was == nil && !evm_exists[addr] ==> !has(s.stateObjects, addr) && (forall a Addr20 :: a != addr ==> s.stateObjects[a] == old(s.stateObjects)[a])
+    ensures c05_rest: sdb_but_objects(*s, old(*s))
+
+func verifAddAddressThenRevert
+    requires nonnil: s != nil && s.keeper != nil && s.journal != nil && s.accessList != nil
+    requires golen: len(s.journal.entries) >= 0 && len(s.logs) >= 1
+    modifies *s, *s.journal, *s.accessList
+    allow frame
+    ensures c05_warm: forall a Addr20 :: has(s.accessList.addresses, a) == has(old(s.accessList.addresses), a)
+    ensures c05_slots: s.accessList.slots == old(s.accessList.slots)
+    ensures c05_rest: *s == old(*s)
+@*/
